@@ -69,6 +69,10 @@ type Rec struct {
 	rule      string
 }
 
+// maxDistinct bounds the per-process set of non-trivial case hashes (memory
+// and statistics-file size); cases beyond it are not counted as distinct.
+const maxDistinct = 3000000
+
 var global *Rec
 
 // R returns the process-wide recorder (created by Main).
@@ -206,6 +210,11 @@ func (r *Rec) NonTrivial(sample any, key ...[]byte) {
 	v := h.Sum64()
 	r.mu.Lock()
 	_, seen := r.distinct[v]
+	if !seen && len(r.distinct) >= maxDistinct {
+		// conservative: beyond the cap new cases are no longer counted
+		r.classes["distinct-set-capped"]++
+		seen = true
+	}
 	if !seen {
 		r.distinct[v] = struct{}{}
 		r.nsample++
